@@ -48,6 +48,7 @@ func sortPermutes(ex *Exec, st *State, reach *Term, s *Term, elem types.Type) {
 	ex.setComp(st, c, Store(base, vc.SlicePtr(s), nw))
 	vc.note("sort.Slice / slices.SortFunc / sort.Strings modelled as an arbitrary permutation of the slice (comparator not interpreted)")
 }
+
 var ifaceModelMods = map[string]func(ex *Exec, ms *modSet){}
 
 const cs = "(k8s.io/utils/cpuset.CPUSet)."
